@@ -31,6 +31,12 @@ TWINS = [
     ("skip_one_plain_field_ok", "#[derive(Encode, Decode)] struct S { #[codec(skip)] a: u32, b: u64 }", True),
     ("skip_and_compact_two_plain_fields", "#[derive(Encode, Decode)] struct S { #[codec(skip)] #[codec(compact)] a: u32, b: u64, c: u8 }", False),
     ("skip_and_compact_in_variant", "#[derive(Encode, Decode)] enum T { A { #[codec(skip)] #[codec(compact)] a: u32, b: u8 } }", False),
+    ("list_compact_skip", "#[derive(Encode, Decode)] struct S { #[codec(compact, skip)] a: u32, b: u8 }", False),
+    ("list_skip_encoded_as_variant", "#[derive(Encode, Decode)] enum T { A(#[codec(skip, encoded_as = \"u8\")] u32, u8) }", False),
+    ("variants_257_one_skipped_ok", "#[derive(Encode, Decode)] enum T { #[codec(skip)] S, " + ", ".join("V%d" % i for i in range(256)) + " }", True),
+    ("variants_300_100_skipped_ok", "#[derive(Encode, Decode)] enum T { " + ", ".join(("#[codec(skip)] V%d" % i) if i % 3 == 0 else ("V%d" % i) for i in range(300)) + " }", True),
+    ("variants_257_encodable", "#[derive(Encode, Decode)] enum T { " + ", ".join("V%d" % i for i in range(257)) + " }", False),
+    ("variants_256_ok", "#[derive(Encode, Decode)] enum T { " + ", ".join("V%d" % i for i in range(256)) + " }", True),
     ("compact_and_encoded_as", "#[derive(Encode, Decode)] struct S { #[codec(compact, encoded_as = \"u8\")] a: u32 }", False),
     ("compact_ok", "#[derive(Encode, Decode)] struct S { #[codec(compact)] a: u32 }", True),
     ("union", "#[derive(Encode, Decode)] union U { a: u8, b: u8 }", False),
